@@ -241,12 +241,32 @@ class ExprMixin:
             return z3.BoolVal(a.r is b.r)
         if a.k in ("int", "bool") and b.k in ("int", "bool"):
             return self.as_int(a) == self.as_int(b)
-        return self.to_val(a) == self.to_val(b)
+        va, vb = self.to_val(a), self.to_val(b)
+        ha, hb = base_hint(a.hint), base_hint(b.hint)
+        if not self.in_spec and a.k == "val" and b.k == "val" and (
+                ha in ("dict", "list", "set") or hb in ("dict", "list", "set")):
+            # (in clauses `==` on objects is identity; write struct_eq(a, b) for the structural one)
+            # == on containers is structural: two different objects may be equal
+            # (over-approximated by an uninterpreted relation; identity implies equality)
+            seq = z3.Function("struct_eq", Val, Val, core.BoolS)
+            return z3.Or(va == vb, z3.And(Val.is_ref(va), Val.is_ref(vb), seq(va, vb), seq(vb, va),
+                                          cls_of(Val.a(va)) == cls_of(Val.a(vb))))
+        return va == vb
+
+    def val_is(self, a, b):
+        """identity (`is`)"""
+        if a.k == "val" and b.k == "val":
+            return a.r == b.r
+        return self.val_eq(a, b)
 
     def compare(self, op, a, b, n):
-        if isinstance(op, (ast.Eq, ast.Is)):
+        if isinstance(op, ast.Is):
+            return self.val_is(a, b)
+        if isinstance(op, ast.IsNot):
+            return z3.Not(self.val_is(a, b))
+        if isinstance(op, ast.Eq):
             return self.val_eq(a, b)
-        if isinstance(op, (ast.NotEq, ast.IsNot)):
+        if isinstance(op, ast.NotEq):
             return z3.Not(self.val_eq(a, b))
         if isinstance(op, (ast.Lt, ast.LtE, ast.Gt, ast.GtE)):
             ia, ib = self.concrete_items(a), self.concrete_items(b)
@@ -301,7 +321,12 @@ class ExprMixin:
             if r is not None:
                 return r
         if cont.k == "val" and not h:
-            return self.user_contains(cont, item, n)
+            # unknown container kind: a string (substring test) or an object
+            v = cont.r
+            iv = self.to_val(item)
+            f = z3.Function("obj_contains", core.IntS, Val, core.BoolS)
+            return z3.If(Val.is_str(v), z3.And(Val.is_str(iv), z3.Contains(Val.s(v), Val.s(iv))),
+                         f(Val.a(v), iv))
         raise Unsupported(f"'in' on value without container hint ({h!r}) line {getattr(n,'lineno','?')}")
 
     def user_contains(self, cont, item, n):
@@ -365,6 +390,8 @@ class ExprMixin:
         if obj.k == "str" or self.tag(obj) == "str":
             return py(BoundBuiltin(obj, "str", name), "builtin")
         h = base_hint(obj.hint)
+        if h == "str":  # 'str|none' after a None test
+            return py(BoundBuiltin(obj, "str", name), "builtin")
         if h in ("list", "dict", "set"):
             return py(BoundBuiltin(obj, h, name), "builtin")
         if name == "__class__":
@@ -585,6 +612,12 @@ class ExprMixin:
             r = self.user_getitem(obj, idx, n)
             if r is not None:
                 return r
+        if obj.k == "val" and not h and not self.in_spec:
+            # object of unknown class: its __getitem__ is an uninterpreted pure lookup
+            g = z3.Function("obj_getitem", core.IntS, Val, Val)
+            v = g(self.as_addr(obj), self.to_val(idx))
+            self.closed(v)
+            return self.from_val(v)
         raise Unsupported(f"subscript on value without hint ({h!r}) line {getattr(n,'lineno','?')}")
 
     def user_getitem(self, obj, idx, n):
